@@ -16,7 +16,7 @@ from .. import cases
 
 # a flattening vendor has no "re-send the block" (%rewrite is not used by its rulebooks), and a rule that begins with the negation word
 # cannot be told from a removal in a flat command line
-FLAT_SKIP = {"rewrite", "rewrite-values", "ordered-rewrite", "rewrite-deep", "catch-all"}
+FLAT_SKIP = {"rewrite", "rewrite-values", "ordered-rewrite", "rewrite-deep", "rewrite-sandwich", "catch-all"}
 
 
 def real_patch(cat, k, old_j, new_j):
@@ -39,10 +39,10 @@ def run(ctx):
                        "non-trivial = distinct (rulebook, old, new) whose patch has at least one command")
     ctx.assumptions += ["device model: one line per (rule,key); block headers fully determined by (rule,key)",
                         "documented contracts of permanent / ignore_changes are part of the oracle (Conv)",
-                        "block-structured vendor profiles (huawei, cisco, pc, ...) and the flattening vendor juniper (set / delete lines segmented by the rulebook; catalogue entries without %rewrite); nokia and routeros not covered"]
+                        "block-structured vendor profiles (huawei, cisco, pc, ...) and the flattening vendors juniper and ribbon (set / delete lines segmented by the rulebook; catalogue entries without %rewrite); nokia and routeros not covered"]
     mc_converge(ctx, quick)
     limit = 900 if quick else 30000
-    profiles = ["huawei", "cisco", "juniper"] if quick else ["huawei", "cisco", "juniper", "pc", "arista", "h3c", "nexus"]
+    profiles = ["huawei", "cisco", "juniper", "ribbon"] if quick else ["huawei", "cisco", "juniper", "pc", "arista", "h3c", "nexus", "ribbon"]
     import os
     if os.environ.get("VERIF_PROFILES"):          # debugging aid: restrict the vendor profiles of this run
         profiles = os.environ["VERIF_PROFILES"].split(",")
@@ -50,7 +50,7 @@ def run(ctx):
     for pi, prof in enumerate(profiles):
         cat = cases.Catalog(ctx, prof)
         aux = cat.aux_file()
-        lim = limit if pi == 0 else limit // 4
+        lim = limit if pi == 0 else limit // (8 if prof == "ribbon" else 4)
         # ---- round 1: old -> new1
         r1 = []
         for k in range(1, len(cat.entries) + 1):
@@ -120,7 +120,7 @@ def mc_converge(ctx, quick):
     """A-layer (spec/Patcher.tla) executed on the P-layer device over full squares of Configs(R)"""
     import os
     base = open(os.path.join(core.SPEC, "mc", "MC_Converge.cfg")).read()
-    n_entries = 17
+    n_entries = 19
     runs = []
     for e in (MC_QUICK if quick else range(1, n_entries + 1)):
         if e in MC_KNOWN:
